@@ -399,14 +399,24 @@ class World:
     """One IMAPUserServer + sessions on one virtual loop and one scratch dir."""
 
     def __init__(self, rseed: int = 0, sched: ScheduleSource | None = None, pack_limit: int | None = None,
-                 mgmt: bool = True, jail: bool = False):
+                 mgmt: bool = True, jail: bool = False, root_dir=None):
         reset_globals()
         random.seed(rseed)
         self.rseed = rseed
         self.loop: VLoop = new_loop(sched or ScheduleSource(rseed))
         base = scratch_root()
-        self.dir = Path(_mkdtemp(base))
-        if jail:
+        self.keep_dir = root_dir is not None
+        if root_dir is not None:
+            # the caller owns the directory (crash-point checks): <root_dir>/mail
+            self.dir = Path(root_dir)
+            self.jail = None
+            self.root = self.dir / "mail"
+            self.root.mkdir(parents=True, exist_ok=True)
+        else:
+            self.dir = Path(_mkdtemp(base))
+        if root_dir is not None:
+            pass
+        elif jail:
             self.jail = self.dir
             self.root = self.dir / "users" / "me"
             self.root.mkdir(parents=True)
@@ -516,7 +526,8 @@ class World:
         finally:
             lp.max_iterations = None
             close_loop(lp)
-            rmtree(self.dir)
+            if not self.keep_dir:
+                rmtree(self.dir)
             if self._orig_pack is not None:
                 import asimap.mbox as mb
 
